@@ -89,7 +89,9 @@ fn main() {
             let count: usize = arg(&args, "--count", "50").parse().unwrap();
             let maxi: usize = arg(&args, "--max-instances", "5").parse().unwrap();
             let convert = arg(&args, "--convert", "0") == "1";
-            if arg(&args, "--descriptors", "0") == "1" {
+            if arg(&args, "--convertible", "0") == "1" {
+                cross::run_cross_convertible(seed, count, &mut out);
+            } else if arg(&args, "--descriptors", "0") == "1" {
                 cross::run_cross_descriptors(seed, 6, &mut out);
             } else {
                 cross::run_cross(seed, count, maxi, convert, &mut out);
